@@ -8,6 +8,34 @@
 #include <openssl/err.h>
 #include <openssl/x509.h>
 
+/* find extension `type` in a hello message (4-byte handshake header included) */
+static const unsigned char *
+find_ext(const unsigned char *m, size_t ml, int is_server_hello, unsigned type, size_t *vlen)
+{
+	size_t o = 4 + 2 + 32, l;
+	if (ml < o + 1) return NULL;
+	o += 1 + m[o];
+	if (is_server_hello) o += 3;
+	else {
+		if (o + 2 > ml) return NULL;
+		o += 2 + (((size_t)m[o] << 8) | m[o + 1]);
+		if (o + 1 > ml) return NULL;
+		o += 1 + m[o];
+	}
+	if (o + 2 > ml) return NULL;
+	l = ((size_t)m[o] << 8) | m[o + 1];
+	o += 2;
+	if (o + l > ml) return NULL;
+	while (l >= 4) {
+		unsigned t = ((unsigned)m[o] << 8) | m[o + 1];
+		size_t el = ((size_t)m[o + 2] << 8) | m[o + 3];
+		if (el + 4 > l) return NULL;
+		if (t == type) { *vlen = el; return m + o + 4; }
+		o += 4 + el; l -= 4 + el;
+	}
+	return NULL;
+}
+
 typedef struct {
 	SSL_CTX *ctx;
 	SSL *ssl;
@@ -411,6 +439,28 @@ main(int argc, char **argv)
 			TP_VIOL("interop:close-not-clean", what);
 		}
 		tm_verdict(&mm.m, 1, b_is_client ? b_total : o_total, b_is_client ? o_total : b_total);
+		/* max_fragment_length with an independent MFL-aware peer (C16 clauses, judged on the same session) */
+		if (b_is_client) {
+			size_t vl = 0;
+			const unsigned char *ev;
+			int ch_code = 0, sh_code = 0;
+			ev = find_ext(mm.m.rm.last_ch, mm.m.rm.last_ch_len, 0, 1, &vl); if (ev && vl == 1) ch_code = ev[0];
+			ev = find_ext(mm.m.rm.last_sh, mm.m.rm.last_sh_len, 1, 1, &vl); if (ev && vl == 1) sh_code = ev[0];
+			vf_stat("ossl_mfl_sessions", 1);
+			if (layout != TP_LAYOUT_SPLIT1 && ((frag < 16384) != (ch_code != 0) || (ch_code != 0 && ((size_t)256 << ch_code) != frag))) {
+				TP_VIOL("interop:mfl-client-request-wrong", "client buffers and the max_fragment_length it requested from OpenSSL do not match");
+			}
+			if ((br_ssl_engine_get_mfln_negotiated(b.eng) != 0) != (sh_code != 0)) {
+				TP_VIOL("interop:mfl-negotiated-flag-wrong", "negotiated flag differs from the presence of the extension in OpenSSL's ServerHello");
+			}
+			if (sh_code) {
+				size_t L = (size_t)256 << sh_code;
+				vf_stat("ossl_mfl_echoed", 1);
+				if (sh_code != ch_code) TP_VIOL("interop:mfl-echo-mismatch-accepted", "session completed although OpenSSL echoed another code than requested");
+				if (mm.m.max_plain_prot[0] > L) TP_VIOL("interop:mfl-client-exceeds-negotiated-length", "BearSSL client sent a record above the negotiated length to OpenSSL");
+				if (mm.m.max_plain_prot[1] > L) vf_stat("ossl_peer_exceeded_mfl", 1);
+			}
+		}
 		vf_stat("ossl_sessions_completed", 1);
 		vf_stat(b_is_client ? "ossl_as_server" : "ossl_as_client", 1);
 		vf_stat("records_decoded", mm.m.rm.n_records[0] + mm.m.rm.n_records[1]);
